@@ -1361,8 +1361,11 @@ where
             let mut dropped_any = false;
 
             loop {
+                // Reporting to the previous subscriptions may have taken a while (several
+                // round trips, retransmissions): stamp each report with the time it really
+                // starts at, or the next one would be allowed earlier than `min_int` after it.
                 let Some(mut rctx) = self.state.subscriptions.report(
-                    now,
+                    Instant::now(),
                     event_numbers_watermark,
                     &self.subscriptions_buffers,
                 ) else {
